@@ -66,7 +66,30 @@ func (e *Engine) genFunction(key string) (*FnCtx, error) {
 	fc := e.newFnCtx(fn, ct)
 	fc.structTypes = e.structTypeTable()
 	err := fc.run()
-	return fc, err
+	if err != nil {
+		return fc, err
+	}
+	hasFor := false
+	for _, sp := range ct.Splits {
+		if len(sp.For) > 0 {
+			hasFor = true
+		}
+	}
+	if hasFor {
+		// second pass: the clauses that need the case split
+		fc2 := e.newFnCtx(fn, ct)
+		fc2.structTypes = fc.structTypes
+		fc2.splitPass = true
+		if err := fc2.run(); err != nil {
+			return fc, err
+		}
+		fc.obls = append(fc.obls, fc2.obls...)
+		fc.npaths += fc2.npaths
+		for k := range fc2.usedLemmas {
+			fc.usedLemmas[k] = true
+		}
+	}
+	return fc, nil
 }
 
 type FuncReport struct {
